@@ -51,6 +51,8 @@ def summary (d : Disk) : String :=
 def kindOf (s : String) : CrashKind :=
   if s == "proc" then .proc
   else if s == "new" then .power (fun _ => true) (fun _ => true)
+  else if s == "files" then .power (fun _ => false) (fun _ => true)
+  else if s == "content" then .power (fun _ => true) (fun _ => false)
   else .power (fun _ => false) (fun _ => false)
 
 def runOp (st : CrashSt) (as : List Act) : CrashSt × String :=
